@@ -173,7 +173,9 @@ def run(rep, ctx):
     for _ in range(m):
         a, b = htmlgen.pair(rng)
         docs.append((g.document(a), g.document(b)))
-    docs += [('', '<p>x</p>'), ('<p>a</p>\n\n\n\n<p>b</p>', '<p>a</p>\n<p>b</p>'), ('<pre>a\n\n\n   \n b</pre>', '<pre>a\n \n b</pre>'),
+    docs += [('<img src="i.png">', '<img src="j.png">'), ('<script>app()</script>', '<body></body>'), ('', ''), ('<div id="root"></div><script src="a.js"></script>', '<div id="root"></div><script src="b.js"></script>'),
+             ('<title>only a title</title>', '<title>another title</title>'), ('  \n ', '<p> </p>'),        # nothing visible on either side
+             ('', '<p>x</p>'), ('<p>a</p>\n\n\n\n<p>b</p>', '<p>a</p>\n<p>b</p>'), ('<pre>a\n\n\n   \n b</pre>', '<pre>a\n \n b</pre>'),
              ('&lt;!-- not a comment --&gt; text', 'text'), ('<head><title>T</title></head>x', '<head><title>U</title></head>x')]
     import render_checks as _rc
     docs += _rc.real_pages()         # archived versions of real pages from the repository's fixtures
